@@ -63,6 +63,8 @@ func (s *SX) String() string {
 			b = append(b, x.Name+" "+x.Type)
 		}
 		return "(" + s.Tok + " " + strings.Join(b, ", ") + " :: " + s.Args[0].String() + ")"
+	case "assert":
+		return s.Args[0].String() + ".(" + s.Tok + ")"
 	case "ite":
 		return "(" + s.Args[0].String() + " ? " + s.Args[1].String() + " : " + s.Args[2].String() + ")"
 	}
@@ -351,6 +353,12 @@ func (ps *sparser) postfix() *SX {
 	x := ps.primary()
 	for {
 		switch {
+		case ps.isOp(".") && ps.toks[ps.p+1].kind == "op" && ps.toks[ps.p+1].s == "(":
+			t := ps.next()
+			ps.next()
+			ty := ps.typeText()
+			ps.expect(")")
+			x = &SX{Op: "assert", Tok: ty, Args: []*SX{x}, Pos: t.pos}
 		case ps.isOp("."):
 			t := ps.next()
 			n := ps.next()
